@@ -341,7 +341,39 @@ def run_cli_case(case, ctx, res):
                 if plan[s]:
                     args.append("--merge-copyrights")
                 args += ["-r", str(f.parent)] if sidecar else [str(f)]
-                r = run_cli(args, cwd=str(root))
+                if sidecar and s == 0 and rng.random() < 0.3:
+                    # the sidecar cannot be read this once (I/O error): the run fails and the notices in it stay where they are
+                    from ..monitors import FS
+
+                    FS.install()
+                    side = str(f.parent / (f.name + ".license"))
+                    was = open(side, "rb").read()
+                    nth = {"n": 0, "at": rng.choice([1, 2, 2, 3])}   # which read of the sidecar fails: the sniffing, the text read, ...
+
+                    def eio(p, nth=nth):
+                        nth["n"] += 1
+                        return OSError(5, "Input/output error (injected)", p) if nth["n"] == nth["at"] else None
+
+                    FS.fail_open = {side: eio}
+                    FS.begin()
+                    try:
+                        rf = run_cli(args, cwd=str(root))
+                    finally:
+                        FS.end()
+                        FS.fail_open = {}
+                    fired = nth["n"] >= nth["at"]
+                    res.cell("cli-sidecar-read-fault:" + ("fired" if fired else "not-reached"))
+                    if not fired:
+                        r = rf   # no read was failed: this was the step itself
+                    elif open(side, "rb").read() != was:
+                        res.violation("sidecar-overwritten-after-read-error", f"FILE.license could not be read (injected EIO), annotate exit {rf.exit_code}, and "
+                                      f"its earlier notices are gone", before=was.decode()[:300], after=open(side).read()[:300])
+                        ok = False
+                        break
+                    else:
+                        r = run_cli(args, cwd=str(root))
+                else:
+                    r = run_cli(args, cwd=str(root))
                 if r.escaped or r.exit_code != 0:
                     res.violation("annotate-failed", f"annotate exit {r.exit_code} {r.exc_type} for holders {hs}", args=args[4:], **r.brief())
                     ok = False
